@@ -81,3 +81,24 @@ def resolver_probe(rec):
               "verifier found no assignment anywhere in the package")
         return 10
     return 0
+
+
+def script_probe(rec):
+    """run an end-to-end witness script of tools/findings on the real code:
+    exit 10 of the script = reproduced"""
+    import os
+    import subprocess
+    import sys
+    r = rec["replay"]
+    here = os.path.dirname(os.path.dirname(os.path.abspath(__file__)))
+    p = subprocess.run(
+        [sys.executable, os.path.join(here, "tools", "findings", r["script"])]
+        + [str(a) for a in r.get("args", [])],
+        capture_output=True, text=True, timeout=900,
+        env=dict(os.environ, PYTHONPATH=os.environ.get("NESSAI_REPO",
+                                                       "/repo")))
+    print((p.stdout + p.stderr).strip()[-500:])
+    if p.returncode == 10:
+        print("REPRODUCED on the real code by", r["script"])
+        return 10
+    return 0
